@@ -22,13 +22,25 @@ Families
   dead     base family with code after return / break / continue allowed (only the
            programs that do contain such code).  The statement is silent on uses in
            unreachable code: a rejection that is reported AT an unreachable line is
-           accepted either way and counted; everything else is compared as usual.
+           tolerated and counted - unless even the pessimistic reading, in which the
+           unreachable code is entered with the state at the jump, finds no problem
+           (then the program is free of both problems in every reading and must be
+           accepted).  Everything else is compared as usual.
   dead-typed  the same with `x = 1` up front and the typed atoms (an unreachable
            assignment of another type must not poison reachable uses).
   literal  conditions are the literals True / False (for: range(0) / range(2)).
-           Oracle is CPython executing the same body: UnboundLocalError/NameError on
+           Oracle 1 is CPython executing the same body: UnboundLocalError/NameError on
            the one feasible path  =>  Guppy must reject.  (The converse is not
-           checked: Guppy ignores condition values.)
+           checked: Guppy ignores condition values.)  Oracle 2: if the model finds no
+           problem even with every branch taken as feasible, Guppy must accept.
+
+On programs with never-taken ("dummy") CFG edges - the dead* and literal families -
+check()'s verdict turned out to depend on the pop order of `queue = set(bbs)` in
+cfg/analysis.py (heap addresses).  To keep this driver deterministic, and to cover
+that dimension, the verification hook H1 (`_VERIF_SCHED`) is used to fix the order:
+every program runs with lowest-block-index-first, those three families additionally
+with highest-first, and each outcome is judged on its own; programs whose two
+outcomes differ are counted in `verdict_depends_on_worklist_order`.
 
 `use` is a declared generic function `use(x: T) -> None`, so a use can never cause a
 type error of its own; the only errors possible in these programs are the two
@@ -185,7 +197,7 @@ def _step_factory(uses: dict):
 CROSSCHECK_MAX_PATHS = 2000
 
 
-def model(body) -> dict:
+def model(body, dead_code: str = "skip") -> dict:
     """Path-based reaching definitions with a type tag per definition.
 
     Abstract state = (tag of x, tag of y, tag of inner), tag in {U, I, B, F}.
@@ -197,8 +209,8 @@ def model(body) -> dict:
     path-by-path enumeration (a disagreement is a harness error, not a finding)."""
     uses: dict = {}
     init = ("U",) * len(VARS)
-    ex = pg.explore_paths(body, init, _step_factory(uses))
-    if pg.path_count_bound(body, 4) <= CROSSCHECK_MAX_PATHS:
+    ex = pg.explore_paths(body, init, _step_factory(uses), dead_code=dead_code)
+    if dead_code == "skip" and pg.path_count_bound(body, 4) <= CROSSCHECK_MAX_PATHS:
         uses2: dict = {}
         bf, be = pg.brute_force_paths(body, init, _step_factory(uses2), max_iter=4)
         if be != ex.exits or uses2 != uses or any(bf[p] != ex.before[p] for p in bf):
@@ -237,16 +249,51 @@ def source(body, conds=None):
     return head + text, head.count("\n"), lmap
 
 
-def run_guppy(src: str):
+class _DetQueue:
+    """Deterministic replacement for the analyses' `queue = set(bbs)` (verification
+    hook H1 in cfg/analysis.py): pops the block with the lowest (or highest) index."""
+
+    def __init__(self, items, highest: bool):
+        self.items = set(items)
+        self.highest = highest
+
+    def __len__(self):
+        return len(self.items)
+
+    def pop(self):
+        bb = (max if self.highest else min)(self.items, key=lambda b: b.idx)
+        self.items.remove(bb)
+        return bb
+
+    def update(self, it):
+        self.items.update(it)
+
+
+def hook_available() -> bool:
+    import guppylang_internals.cfg.analysis as an
+    return bool(getattr(an, "_VERIF_ON", False)) and hasattr(an, "_VERIF_SCHED")
+
+
+def run_guppy(src: str, highest: bool = False):
+    """check() of `main` with the dataflow worklists popped in a fixed order (set
+    iteration order of basic blocks depends on heap addresses otherwise, and on
+    programs with unreachable code the verdict depends on it)."""
+    import guppylang_internals.cfg.analysis as an
     from guppylang_internals import experimental
     from vlib import gload
     _ensure_prelude()
     old = experimental.EXPERIMENTAL_FEATURES_ENABLED
     experimental.EXPERIMENTAL_FEATURES_ENABLED = True   # capturing closures
+    hooked = hook_available()
+    if hooked:
+        old_sched = an._VERIF_SCHED
+        an._VERIF_SCHED = lambda queue, analysis: _DetQueue(queue, highest)
     try:
         out, mod = gload.run_src(src, fn="main", compile=False, with_prelude=False)
     finally:
         experimental.EXPERIMENTAL_FEATURES_ENABLED = old
+        if hooked:
+            an._VERIF_SCHED = old_sched
     if mod is not None:
         gload.unload(mod)
     return out
@@ -284,98 +331,121 @@ def run_cpython(body, conds) -> str:
     return "ok"
 
 
+TWO_SCHEDULE_FAMILIES = ("dead", "dead-typed", "literal")
+
+
 def check_one(item) -> dict:
-    """Evaluates one program: model verdict, implementation verdict, comparison.
+    """Evaluates one program: model verdict, implementation verdict(s), comparison.
+    Families whose CFG has never-taken ("dummy") edges are checked under two extreme
+    worklist orders, because there the implementation's verdict depends on the order.
     Returns a small picklable record."""
     family, body, conds = item
     src, off, lmap = source(body, conds)
-    out = run_guppy(src)
-    rec = {"family": family, "got": out.brief(), "viol": None, "bucket": "",
-           "states": 0, "transitions": 0, "nontrivial": False}
-    err_line = None
-    if out.kind == "error" and out.spans:
-        err_line = out.spans[0][1] - 1 - off          # 0-based line in the body text
-    if out.kind == "crash":
-        rec["bucket"] = "crash"
-        rec["crash"] = out.exc[:200]
-
-    if family == "literal":
-        py = run_cpython(body, conds)
-        rec["py"] = py
-        rec["nontrivial"] = True
-        m = model(body)
-        rec["states"], rec["transitions"] = m["ex"].n_states, m["ex"].n_transitions
-        if out.kind == "crash":
-            if py == "unbound":
-                rec["viol"] = ("literal:crash-instead-of-rejection",
-                               "CPython raises UnboundLocalError/NameError; check() neither accepts nor "
-                               f"rejects as 'not defined' but crashes ({out.exc[:100]})")
-            return rec
-        if py == "unbound":
-            if out.kind == "ok":
-                rec["viol"] = ("literal:cpython-unbound-but-accepted",
-                               "CPython raises UnboundLocalError/NameError on the single "
-                               "feasible path but check() accepts")
-            elif out.title not in (T_UNDEF, T_TYPES):
-                rec["viol"] = (f"literal:unexpected-error:{out.title}",
-                               f"rejected with unexpected title {out.title!r}")
-            rec["bucket"] = "lit-unbound-rejected" if out.kind == "error" else "lit-unbound-ACCEPTED"
-        else:
-            if out.kind == "ok":
-                rec["bucket"] = ("lit-accepted-structurally-undefined" if T_UNDEF in m["classes"]
-                                 else "lit-accepted")
-            else:
-                rec["bucket"] = f"lit-rejected-though-cpython-{py}"
-                if out.title not in (T_UNDEF, T_TYPES):
-                    rec["viol"] = (f"literal:unexpected-error:{out.title}",
-                                   f"rejected with unexpected title {out.title!r}")
-        return rec
-
     m = model(body)
     ex = m["ex"]
-    rec["states"], rec["transitions"] = ex.n_states, ex.n_transitions
-    rec["nontrivial"] = pg.n_conds(body) > 0 and m["n_uses"] > 0
+    rec = {"family": family, "viol": None, "bucket": "", "states": ex.n_states,
+           "transitions": ex.n_transitions, "nontrivial": False, "exp": sorted(m["classes"]),
+           "runs": 0, "sched_dep": False}
+    ctxd = {"m": m, "off": off, "lmap": lmap, "py": None, "pess": None}
+    if family == "literal":
+        ctxd["py"] = rec["py"] = run_cpython(body, conds)
+        rec["nontrivial"] = True
+    else:
+        rec["nontrivial"] = pg.n_conds(body) > 0 and m["n_uses"] > 0
+    if family.startswith("dead"):
+        ctxd["pess"] = model(body, dead_code="continue")["classes"]
+        rec["pess"] = sorted(ctxd["pess"])
+    orders = (False, True) if family in TWO_SCHEDULE_FAMILIES and hook_available() else (False,)
+    outs = []
+    for highest in orders:
+        out = run_guppy(src, highest)
+        rec["runs"] += 1
+        bucket, viol = judge(family, out, ctxd)
+        outs.append((out.brief(), bucket))
+        if viol and not rec["viol"]:
+            order = "highest-index-first" if highest else "lowest-index-first"
+            rec["viol"] = (viol[0], viol[1] + (f" [worklist order: {order}]" if len(orders) > 1 else ""))
+        if out.kind == "crash":
+            rec["crash"] = out.exc[:200]
+    rec["got"] = outs[0][0] if len({o for o, _ in outs}) == 1 else " / ".join(o for o, _ in outs)
+    rec["bucket"] = outs[0][1] if len({b for _, b in outs}) == 1 else " | ".join(b for _, b in outs)
+    rec["sched_dep"] = len({o for o, _ in outs}) > 1
+    return rec
+
+
+def judge(family, out, c) -> tuple:
+    """(bucket, violation-or-None) for one implementation outcome."""
+    m = c["m"]
     exp = m["classes"]
-    rec["exp"] = sorted(exp)
+    if family == "literal":
+        py = c["py"]
+        if out.kind == "crash":
+            if py == "unbound":
+                return "crash", ("literal:crash-instead-of-rejection",
+                                 "CPython raises UnboundLocalError/NameError; check() neither accepts "
+                                 f"nor rejects as 'not defined' but crashes ({out.exc[:100]})")
+            return "crash", None
+        if out.kind == "error" and out.title not in (T_UNDEF, T_TYPES):
+            return "lit-unexpected-title", (f"literal:unexpected-error:{out.title}",
+                                            f"rejected with unexpected title {out.title!r}")
+        if py == "unbound":
+            if out.kind == "ok":
+                return "lit-unbound-ACCEPTED", (
+                    "literal:cpython-unbound-but-accepted",
+                    "CPython raises UnboundLocalError/NameError on the single feasible path "
+                    "but check() accepts")
+            return "lit-unbound-rejected", None
+        if out.kind == "ok":
+            return ("lit-accepted-structurally-undefined" if T_UNDEF in exp else "lit-accepted"), None
+        if not exp:
+            # even with every branch taken as feasible (conditions ignored) each use is
+            # definitely defined with one type: free of both problems in any reading
+            return "lit-REJECTED-THOUGH-CLEAN", (
+                f"literal:false-reject:{out.title}",
+                f"every use is defined with one type on ALL structural paths, CPython runs it "
+                f"({py}), but check() rejects with {out.title!r}")
+        return f"lit-rejected-though-cpython-{py}", None
+
     if out.kind == "crash":
         # The statement wants the use *rejected as 'not defined'* (resp. for differing
         # types): an internal error is not that rejection.  (A crash of a program the
         # model accepts is outside this property: counted only.)
         if exp:
-            rec["viol"] = (f"{_fam(family)}:crash-instead-of:{'+'.join(sorted(exp))}",
-                           f"model expects {sorted(exp)} ({m['detail'][0]}) but check() crashes "
-                           f"({out.exc[:100]})")
-        return rec
-    dead_lines = set()
-    if family.startswith("dead"):
-        for p in ex.unreachable_points():
-            lo, hi = lmap[p]
+            return "crash", (f"{_fam(family)}:crash-instead-of:{'+'.join(sorted(exp))}",
+                             f"model expects {sorted(exp)} ({m['detail'][0]}) but check() crashes "
+                             f"({out.exc[:100]})")
+        return "crash", None
+    at_dead = False
+    if family.startswith("dead") and out.kind == "error" and out.spans:
+        err_line = out.spans[0][1] - 1 - c["off"]          # 0-based line in the body text
+        dead_lines = set()
+        for p in m["ex"].unreachable_points():
+            lo, hi = c["lmap"][p]
             dead_lines.update(range(lo, hi + 1))
-    at_dead = err_line is not None and err_line in dead_lines
-
+        at_dead = err_line in dead_lines
+    # unreachable code: the statement is silent about uses there, so a rejection that
+    # is reported AT an unreachable use is tolerated - unless even the pessimistic
+    # reading (unreachable code entered with the state at the jump) finds no problem
+    tolerated = at_dead and bool(c["pess"])
     if not exp:
         if out.kind == "ok":
-            rec["bucket"] = "agree-accept"
-        elif at_dead:
-            rec["bucket"] = "silent:rejected-at-unreachable-use"
-        else:
-            rec["bucket"] = "DISAGREE"
-            rec["viol"] = (f"{_fam(family)}:false-reject:{out.title}",
-                           f"model finds no path problem but check() rejects with {out.title!r}")
-    else:
-        if out.kind == "ok":
-            rec["bucket"] = "DISAGREE"
-            rec["viol"] = (f"{_fam(family)}:missed:{'+'.join(sorted(exp))}",
-                           f"model expects {sorted(exp)} ({m['detail'][0]}) but check() accepts")
-        elif out.title in exp:
-            rec["bucket"] = "agree-reject:" + out.title
-        elif at_dead:
-            rec["bucket"] = "silent:other-error-at-unreachable-use"
-        else:
-            rec["bucket"] = "DISAGREE"
-            rec["viol"] = (f"{_fam(family)}:wrong-class:{'+'.join(sorted(exp))}->{out.title}",
-                           f"model expects {sorted(exp)} ({m['detail'][0]}) but check() reports {out.title!r}")
-    return rec
+            return "agree-accept", None
+        if tolerated:
+            return "silent:rejected-at-unreachable-use", None
+        why = ("model finds no path problem" if not at_dead else
+               "no path problem, not even when the unreachable code is entered with the state "
+               "at the jump,")
+        return "DISAGREE", (f"{_fam(family)}:false-reject:{out.title}",
+                            f"{why} but check() rejects with {out.title!r}")
+    if out.kind == "ok":
+        return "DISAGREE", (f"{_fam(family)}:missed:{'+'.join(sorted(exp))}",
+                            f"model expects {sorted(exp)} ({m['detail'][0]}) but check() accepts")
+    if out.title in exp:
+        return "agree-reject:" + out.title, None
+    if tolerated:
+        return "silent:other-error-at-unreachable-use", None
+    return "DISAGREE", (f"{_fam(family)}:wrong-class:{'+'.join(sorted(exp))}->{out.title}",
+                        f"model expects {sorted(exp)} ({m['detail'][0]}) but check() reports {out.title!r}")
 
 
 def _fam(family: str) -> str:
@@ -417,6 +487,9 @@ def run(ctx) -> dict:
     crashes = []
     samples = []
     validated = 0
+    sched_dep = 0
+    n_seen = 0
+    sched_samples = []
     for item, r in zip(items, results):
         fam[r["family"]] += 1
         if "harness_error" in r:
@@ -426,15 +499,21 @@ def run(ctx) -> dict:
         states += r["states"]
         transitions += r["transitions"]
         nontrivial += bool(r["nontrivial"])
-        if r["bucket"] == "crash":
+        if "crash" in r:
             crashes.append({"prog": pg.show(item[1]), "exc": r.get("crash")})
-        validated += 1
+        validated += r["runs"]
+        if r["sched_dep"]:
+            sched_dep += 1
+            if len(sched_samples) < 6:
+                sched_samples.append({"family": r["family"], "prog": pg.show(item[1]),
+                                      "conds": item[2], "lowest-first / highest-first": r["got"]})
         if r["viol"]:
             key, what = r["viol"]
             ctx.violation(key, f"{what}: [{r['family']}] {pg.show(item[1])}"
                           + (f" conds={item[2]}" if item[2] is not None else ""),
                           _item_json(item))
-        if len(samples) < 8 and r["nontrivial"] and validated % 997 == 1:
+        n_seen += 1
+        if len(samples) < 8 and r["nontrivial"] and n_seen % 997 == 1:
             samples.append({"family": r["family"], "prog": pg.show(item[1]),
                             "model": r.get("exp", r.get("py")), "impl": r["got"]})
     if harness:
@@ -442,7 +521,7 @@ def run(ctx) -> dict:
     cov = {
         "states": states,
         "transitions": transitions,
-        "traces_validated_against_impl": validated,
+        "traces_validated_against_impl": validated,   # implementation runs compared with a model verdict
         "evaluations": len(items),
         "distinct_nontrivial": nontrivial,
         "rule": "non-trivial = program has at least one compound statement and at least "
@@ -452,6 +531,9 @@ def run(ctx) -> dict:
                                                             for k, v in bounds(ctx.tier).items()},
         "programs_per_family": dict(fam),
         "buckets": dict(sorted(buckets.items())),
+        "worklist_hook_used": hook_available(),
+        "verdict_depends_on_worklist_order": sched_dep,
+        "verdict_depends_on_worklist_order_samples": sched_samples,
         "crashes": len(crashes),
         "crash_samples": crashes[:5],
         "harness_errors": 0,
@@ -459,7 +541,8 @@ def run(ctx) -> dict:
     }
     for k, v in fam.items():
         cov[f"n_{k}"] = v
-    cov["n_disagreements"] = sum(v for k, v in buckets.items() if k.endswith("DISAGREE"))
+    cov["n_disagreements"] = sum(v for k, v in buckets.items() if "DISAGREE" in k or "REJECTED-THOUGH" in k
+                                 or "ACCEPTED" in k)
     cov["n_silent_unreachable"] = sum(v for k, v in buckets.items() if "/silent:" in k)
     return cov
 
